@@ -100,10 +100,15 @@ class RecordingTreq:
 
 class Server:
     """A real StorageServer in its own directory, optionally behind a real HTTPServer."""
-    def __init__(self, workdir, http):
+    def __init__(self, workdir, http, expiring=False):
         self.dir = tempfile.mkdtemp(prefix="srv", dir=workdir)
         self.t0 = vr.seconds()
-        self.ss = StorageServer(self.dir, NODEID, clock=vr)
+        if expiring:
+            # lease expiration enabled (mode "age", the leases' own duration); the crawler is not started as a
+            # service: expire_event() runs one cycle when the history says so
+            self.ss = StorageServer(self.dir, NODEID, clock=vr, expiration_enabled=True)
+        else:
+            self.ss = StorageServer(self.dir, NODEID, clock=vr)
         if http:
             self.http = HTTPServer(vr, self.ss, SWISSNUM)
             self.stub = StubTreq(self.http.get_resource())
@@ -610,8 +615,82 @@ def advance_event(g, servers):
     return e
 
 
-def authz_trace(rng, work, combos, nrandom):
-    srv = Server(work, True)
+class _VirtualTime:
+    """time.time() of the crawler, the lease checker and the lease records = the virtual clock of the server"""
+    def time(self):
+        return vr.seconds()
+
+
+def expire_event(g, srv):
+    """more than a lease duration passes, then the lease checker completes one cycle"""
+    import allmydata.storage.crawler as crawler_mod, allmydata.storage.expirer as expirer_mod, allmydata.storage.lease as lease_mod
+    dt = g.rng.choice([32, 33, 40, 62]) * 86400 + g.rng.randint(1, 3600)
+    vr.advance(dt)
+    for k in list(g.uploads):
+        if srv.obs(k[0])[k[1]]["st"] != "incoming":
+            del g.uploads[k]
+    saved = [(m, m.time) for m in (crawler_mod, expirer_mod, lease_mod)]
+    crash = ""
+    try:
+        for m, _ in saved:
+            m.time = _VirtualTime()
+        lc = srv.ss.lease_checker
+        lc.start_slice()
+        t = getattr(lc, "timer", None)
+        if t is not None and t.active():
+            t.cancel()
+    except Exception as ex:
+        import traceback
+        crash = "%s: %s @ %s" % (type(ex).__name__, str(ex)[:120], " < ".join(x.strip()[:90] for x in traceback.format_exc().strip().splitlines()[-7:-1:2]))
+    finally:
+        for m, t in saved:
+            m.time = t
+    return {"ev": "Expire", "dt": dt, "crash": crash, "obsall": srv.obsall()}
+
+
+def expiry_scenario(g, srv, events):
+    """a mutable slot is written, expires and is deleted by the lease checker, is created again (half of the time
+    under the other write enabler), and is then addressed with each write enabler in turn"""
+    rng = g.rng
+    for _ in range(rng.randint(1, 3)):
+        events.append(exec_raw(g, srv, well_formed(g, srv, "rtw")))
+    events.append(expire_event(g, srv))
+    for _ in range(rng.randint(1, 2)):
+        events.append(exec_raw(g, srv, well_formed(g, srv, "rtw")))
+    for _ in range(rng.randint(2, 5)):
+        r = well_formed(g, srv, "rtw")
+        we = rng.choice(sorted(WE))
+        r["hdrs"] = [dict(h, val=we) if h["kind"] == "we" else h for h in r["hdrs"]]
+        events.append(exec_raw(g, srv, r))
+
+
+def cross_upload_scenario(g, srv, events):
+    """two clients upload different shares of one storage index, each with its own upload secret; then each secret is
+    presented for the other client's share (write, abort) before the owners go on"""
+    rng = g.rng
+    si = rng.choice(SISI)
+    free = [sh for sh in SHNUMS if srv.obs(si)[sh]["st"] == "absent"]
+    if len(free) < 2:
+        return
+    a, b = rng.sample(free, 2)
+    ua, ub = rng.sample(sorted(US), 2)
+    size = rng.randint(3, 5)
+    for sh, us in ((a, ua), (b, ub)):
+        events.append(exec_raw(g, srv, {"ep": "alloc", "auth": ["correct"], "hdrs": g.good_hdrs("alloc", us=us), "si": si, "sh": "",
+                                        "a": {"body": "ok", "shnums": [sh], "size": size}}))
+    if (si, a) not in g.uploads or (si, b) not in g.uploads:
+        return
+    steps = [("write", a, ub), ("abort", b, ua), ("write", b, ua), ("write", a, ua), ("write", b, ub), ("abort", a, ub)]
+    rng.shuffle(steps)
+    for ep, sh, us in steps[:rng.randint(3, 6)]:
+        if (si, sh) not in g.uploads:
+            continue
+        events.append(exec_raw(g, srv, {"ep": ep, "auth": ["correct"], "hdrs": g.good_hdrs(ep, us=us), "si": si, "sh": sh,
+                                        "a": g.args(ep, srv, si, sh)}))
+
+
+def authz_trace(rng, work, combos, nrandom, expiring=False):
+    srv = Server(work, True, expiring)
     g = Gen(rng, 0xE0)
     events = []
     try:
@@ -619,8 +698,17 @@ def authz_trace(rng, work, combos, nrandom):
         for _ in range(rng.randint(3, 8)):
             events.append(exec_raw(g, srv, well_formed(g, srv, rng.choice(["alloc", "write", "write", "rtw", "write", "alloc"]))))
         todo = [("combo", c) for c in combos] + [("random", None)] * nrandom
+        if expiring:
+            todo += [("expiry", None)] * 2
+        todo += [("cross", None)]
         rng.shuffle(todo)
         for kind, c in todo:
+            if kind == "expiry":
+                expiry_scenario(g, srv, events)
+                continue
+            if kind == "cross":
+                cross_upload_scenario(g, srv, events)
+                continue
             if kind == "combo":
                 ep, auth, hc = c
                 if ep == "nosuch":
@@ -967,7 +1055,7 @@ def main():
             per = max(1, -(-len(combos) // a.n))      # every combination at least once per run
             for i in range(a.n):
                 mine = [combos[(i * per + j) % len(combos)] for j in range(per)]
-                traces.append(authz_trace(rng, work, mine, max(0, a.events - per - 5)))
+                traces.append(authz_trace(rng, work, mine, max(0, a.events - per - 5), expiring=(i % 3 == 1)))
         else:
             for i in range(a.n):
                 traces.append(twin_trace(rng, work, a.events, zero_read=(i % 10 == 9), focus=a.focus))
